@@ -11,6 +11,7 @@ import multiprocessing as mp
 import os
 import sys
 import time
+import threading
 import traceback
 from collections import Counter
 
@@ -83,11 +84,32 @@ class Part:
         raise NotImplementedError
 
 
+class CaseTimeout(BaseException):
+    pass
+
+
+def _on_alarm(signum, frame):
+    raise CaseTimeout()
+
+
+CASE_TIMEOUT = int(os.environ.get('VERIF_CASE_TIMEOUT', '300'))
+
+
 def run_execute(execute, desc):
-    """Call execute, mapping oracle exceptions to Res. Unexpected exceptions propagate (harness error)."""
+    """Call execute, mapping oracle exceptions to Res. Unexpected exceptions propagate (harness error).
+
+    A single case that does not return within VERIF_CASE_TIMEOUT seconds (default 300; ordinary cases take milliseconds to seconds) is
+    reported as a violation with key 'hang': every generated input is valid, so the call has to terminate."""
+    import signal
+    use_alarm = threading.current_thread() is threading.main_thread() and hasattr(signal, 'SIGALRM')
+    if use_alarm:
+        signal.signal(signal.SIGALRM, _on_alarm)
+        signal.alarm(CASE_TIMEOUT)
     try:
         r = execute(desc)
         return r if isinstance(r, Res) else Res()
+    except CaseTimeout:
+        return Res('violation', key='hang', msg=f'the case did not return within {CASE_TIMEOUT} s (non-termination?)')
     except Violation as v:
         return Res('violation', key=v.key, msg=v.msg)
     except Reject as r:
@@ -101,6 +123,9 @@ def run_execute(execute, desc):
             return Res('violation', key=f'crash:{type(e).__name__}:{os.path.basename(inner.filename)}:{inner.name}',
                        msg=f'{type(e).__name__}: {str(e)[:200]} at {os.path.basename(inner.filename)}:{inner.lineno} ({inner.name})')
         raise
+    finally:
+        if use_alarm:
+            signal.alarm(0)
 
 
 def record(res, desc, r, known_keys, want_samples=4):
